@@ -28,12 +28,14 @@ CLAIMS = {
              "postconditions (conns' and every back-reference set exactly as specified, nothing else changes), return "
              "values, KeyError/TypeError exactly when documented, exceptional postconditions. Bounded (labelled): the "
              "same contract evaluated at run time on real objects after every step of enumerated operation histories "
-             "over 8 connectable kinds.",
+             "over 8 connectable kinds; and ELABORATED histories: call/setattr/connect/replace/disconnect sequences "
+             "with port references taken before and after re-connections, completed to a valid mapping, exported, "
+             "the exported nets compared with the partition computed from the history alone. Instance.__init__ "
+             "establishes the invariants (proved); an AST audit shows nothing else writes conns/_connected_ports.",
         design_ref="DESIGN.md section 4 C04",
         technique="contract-based deductive verification (pyvc VCs with quantified heap invariants, z3; finite-scope "
                   "instantiation for counterexamples) + bounded run-time contract checks on operation histories",
-        note=TB + "; invariants assumed on entry (hold for fresh objects); __call__/__setattr__/_to_array and the "
-             "elaborated result are covered only by the bounded part"),
+        note=TB + "; __call__/__setattr__/_to_array and the elaborated result are covered only by the bounded part"),
     "C18": dict(
         category="other",
         text="Hybrid. Proved (pyvc, quantified namespace invariant Inv_ns, from the current source): module._add, "
@@ -52,7 +54,10 @@ CLAIMS = {
         category="other",
         text="Hybrid. Proved (pyvc): export_slice emits exactly the bits the slice denotes with VLSIR's inclusive top "
              "and never a bit outside the signal; _get_inner / Slice.top/bot/step/width return one coherent resolved "
-             "index; export_port_dir is total and name-preserving. Bounded (labelled): to_proto's end-to-end "
+             "index; export_port_dir is total and name-preserving; export_connection_target dispatches Signal / Slice / Concat "
+             "to a name / export_slice / export_concat and refuses anything else; find_source and handle_noconn; the "
+             "per-element wiring of instance arrays (element k of n receives bits [k*w, (k+1)*w) of an n*w wide "
+             "connection, for all n, w, k: the loop body executed symbolically). Bounded (labelled): to_proto's end-to-end "
              "postcondition - leaf-net partition, devices with parameters and top-level ports of the package equal "
              "the meaning of the design as written, computed before elaboration by an independent reference "
              "interpreter - on ~960 (quick) design programs covering every connectable feature at depth 1-3; the "
@@ -93,11 +98,14 @@ CLAIMS = {
         category="other",
         text="Hybrid. Bounded (labelled): to_proto(from_proto(P).tops) == P by protobuf message equality for every "
              "package of the design family and of a primitive/external-module parameter space; prefix and port "
-             "direction tables round-trip exhaustively. Proved (pyvc): export_slice's inclusive-top translation and "
-             "export_port_dir (the import side mirrors are exercised by the bounded part).",
+             "direction tables round-trip exhaustively. Proved (pyvc): export_slice's inclusive-top translation, "
+             "export_port_dir, export_connection_target; import_connection_target returns the declared signal / the "
+             "unit-step slice [bot, top] of it / delegates concatenations / refuses undeclared names and unset "
+             "variants; slice round-trip lemma over the three contracts; export followed by import of a signal target "
+             "executed as one symbolic run returns the same signal.",
         design_ref="DESIGN.md section 4 C11",
         technique="bounded run-time round-trip equality + pyvc proofs of export leaves",
-        note=TB + "; import_* functions are not under a proved contract"),
+        note=TB + "; import_concat and from_proto's module / instance loops are not under a proved contract"),
     "C02": dict(
         category="other",
         text="Hybrid. Proved (pyvc): check_signals_compatible returns Valid exactly when both sides have equal widths; "
@@ -111,20 +119,22 @@ CLAIMS = {
         design_ref="DESIGN.md section 4 C02",
         technique="contract-based deductive verification of checker soundness (pyvc, z3) + pass-list obligations + "
                   "bounded single-fault enumeration",
-        note=TB + "; check_instance / check_bundles_compatible / the array width rule are covered by the fault family "
+        note=TB + "; check_compatible's dispatch is proved, check_instance / check_bundles_compatible / the array width rule are covered by the fault family "
              "only; one known finding (name clash accepted by elaborate() alone)"),
     "C05": dict(
         category="other",
         text="Hybrid. Proved (pyvc with z3 + cvc5 on strings): ElabPass.flatname returns join(segments) + '_'*k not in "
              "the avoid set and within maxlen (loop invariant + decreasing measure); ResolvePortRefs.create_source and "
              "replace_noconn insert only names absent from the module namespace (call-site precondition of the "
-             "pass-internal Module.add contract) and leave every designer name bound to its object. Bounded "
+             "pass-internal Module.add contract) and leave every designer name bound to its object; the same for the "
+             "insertion loops of ArrayFlattener, BundleFlattener.replace_bundle_inst and "
+             "InstBundleElabPass.elaborate_instance_bundle (one arbitrary iteration from an arbitrary state). Bounded "
              "(labelled): adversarially named designs for every naming rule x underscore suffixes x declaration "
              "orders against the reference interpreter and object identity.",
         design_ref="DESIGN.md section 4 C05",
         technique="contract-based deductive verification on strings (pyvc, z3 + cvc5) with call-site obligations + "
                   "bounded adversarial naming family",
-        note=TB + "; insertion sites in arrays.py, inst_bundles.py, flatten_bundles.py are bounded only"),
+        note=TB + "; Path.to_name and the Instance constructor are abstracted at the loop sites"),
     "C07": dict(
         category="other",
         text="Hybrid. Proved (pyvc): elaborate_module_base returns a module already done by the pass untouched and "
@@ -156,9 +166,12 @@ CLAIMS = {
              "rejects circular calls and restores pending/stack on every exit; relational obligations on two symbolic "
              "executions of the real _unique_name (z3 + cvc5 on strings): equal readable names imply equal parameter "
              "values for string / optional-string shapes (None vs 'None' included), and a readable name always "
-             "contains '=' (never a hex digest). Bounded (labelled): memo identity, body run count, distinct names, "
-             "export-name uniqueness and name stability over three param-class shapes x 33 values and three call "
-             "forms; handed-on modules keep their name.",
+             "contains '=' (never a hex digest); generator._run gives a fresh result exactly one name and leaves a result "
+             "that already belongs to a generator call (handed along by any generator, itself included) as named. "
+             "Bounded (labelled): memo identity, body run count, distinct names, "
+             "export-name uniqueness, name stability and independence of the name from the spelling of equal values "
+             "over five param-class shapes x 39 values and three call forms; handed-on modules (other generator, same "
+             "generator, chain) keep their name; every paramclass field of the library takes part in ==/hash.",
         design_ref="DESIGN.md section 4 C09",
         technique="contract-based deductive verification incl. relational string obligations (pyvc, z3 + cvc5) + "
                   "bounded parameter-shape family",
@@ -166,8 +179,9 @@ CLAIMS = {
     "C10": dict(
         category="other",
         text="Hybrid. Proved (pyvc): PortDir.flipped swaps INPUT/OUTPUT and fixes INOUT/NONE; involution lemma over the "
-             "contract; export_port_dir total. Bounded-exhaustive (labelled): flattened names, widths, visibility and "
-             "directions of ~7,500 (quick) bundle instantiations - every leaf kind at depth 1-3 with flips at every "
+             "contract; export_port_dir total; BundleInstance.__copy__ keeps every public field and flipped() returns a "
+             "copy with the flag negated, the original untouched (two flips cancel). Bounded-exhaustive (labelled): "
+             "flattened names, widths, visibility and directions of ~20,000 (quick) bundle instantiations - every leaf kind at depth 1-3 with flips at every "
              "level by constructor flag and flipped(), roles, port vs internal, plus seeded random trees - against a "
              "reference of the documented rule.",
         design_ref="DESIGN.md section 4 C10",
@@ -177,7 +191,10 @@ CLAIMS = {
         category="other",
         text="Hybrid. Proved (pyvc): export_prefix is total over the 21 prefixes and name-preserving; "
              "export_param_value picks the variant matching the value's type and carries the value unchanged "
-             "(None -> None, TypeError outside the accepted types). Bounded (labelled): exported name/variant/exact "
+             "(None -> None, TypeError outside the accepted types); export_prefixed (over exact rationals) emits an "
+             "integer mantissa within int64 as that integer and anything else as its decimal string, with the prefix "
+             "of the same name, and never raises; export_primitive_params renames exactly the pulse source's "
+             "parameters. Bounded (labelled): exported name/variant/exact digits and "
              "value (as Fraction, floats bit-for-bit) for an external module and ten ideal primitives over ints to "
              "+-2^63, floats, 1-40 digit Decimals, strings, Literals, Prefixed x 21 prefixes; None omitted; documented "
              "pulse renaming; to_scalar conversion.",
@@ -186,15 +203,21 @@ CLAIMS = {
         note=TB + "; Decimal and float are outside the solver theories"),
     "C14": dict(
         category="other",
-        text="Bounded only (labelled): every Prefixed comparison, hash, int(), float(), + - * neg abs scale checked "
-             "against exact rationals over all 441 ordered prefix pairs x mantissa pairs (0, +-1, prefix-boundary "
-             "values, 1-25 digits, equal values written differently); prefix tables exhaustively. No obligation is "
-             "claimed as proved: Decimal context arithmetic and float rounding are outside the solver theories and "
-             "the functions are a few lines of Decimal/Fraction calls each.",
-        design_ref="DESIGN.md section 4 C14",
-        technique="bounded run-time contract check against fractions.Fraction (no deductive part: not applicable to "
-                  "Decimal/float arithmetic)",
-        note="fractions / decimal as reference; one known finding (28-digit context precision)"),
+        text="Hybrid. Proved (pyvc over exact rationals, cvc5/z3, from the current source of hdl21/prefix.py, for every "
+             "ordered pair of the 21 prefixes and ARBITRARY real mantissas): the six comparison operators of Prefixed "
+             "(with _rounded_to_smaller, to_prefixed and exact inlined) never raise, agree with the comparison of the "
+             "exact values beyond the 1e-20 tolerance, make equal values equal with equal hashes, satisfy trichotomy "
+             "and the relations between < <= == != >= >, are symmetric under operand swap; int() truncates and float() "
+             "is the nearest float of the exact value. Bounded (labelled): + - * neg abs scale against exact "
+             "rationals over all 441 prefix pairs x mantissa pairs (decimal's 28-digit context is outside the solver "
+             "theories), construction routes (copy-with-update of a used number, copy, pickle), prefix tables "
+             "exhaustively.",
+        design_ref="DESIGN.md section 4 C14 and section 8.2",
+        technique="contract-based deductive verification over linear real/integer arithmetic with floor (pyvc VCs, "
+                  "cvc5 then z3; relational clauses over merged runs of the six operators) + bounded run-time check "
+                  "of the arithmetic operators against fractions.Fraction",
+        note=TB + "; Fraction(Decimal) exact for finite Decimals, hash/float of a Fraction are functions of its value "
+             "(assumed); arithmetic operators have no deductive part; one known finding (28-digit context precision)"),
     "C16": dict(
         category="other",
         text="Hybrid. Proved (pyvc): _find_signal_or_port returns the named port, else the named signal, else raises. "
@@ -220,7 +243,8 @@ CLAIMS = {
         text="Hybrid. Proved (pyvc): HierarchyWalker.visit_instance / visit_module / visit_instantiable leave "
              "connections, names and hierarchy containers untouched on every exit (only Instance.of may change), total "
              "dispatch over the instantiable kinds, with the PDK hooks as virtual callees; an AST audit shows no PDK "
-             "walker writes connections or names. Exhaustive over the PDK tables (evaluated on the real walkers): "
+             "walker writes connections or names; use_defaults of the Sky130 and GF180 walkers picks, for w and l "
+             "independently, the given value or the table default. Exhaustive over the PDK tables (evaluated on the real walkers): "
              "every type/family/threshold triple, every model name and passive table entry for sample / Sky130 / "
              "GF180 / ASAP7 with frame, selection, port compatibility, cache identity, export + spice/spectre "
              "netlists, compile-twice, sizes, pdk.compile by module/name/default; logic cells sampled 1 in 16 (all in "
